@@ -5,6 +5,10 @@ IMPL   harness/h_c14_probe.cpp   the functor_t / functor_composition_t / combina
        harness/h_c14_ext.cpp     get_function_composition / get_function_operands / apply / get_compute_graph on views of depth 1..4,
                                  operands of every kind the extraction code tells apart: host arrays, aliased arrays, number literals,
                                  array-valued views and NUMBER-valued views (reductions over all axes: 0-d, `is_num_v` AND `is_view_v`)
+       harness/h_c14_mb.cpp      compositions f * g with g returning an nmtools_maybe<view> (run-time validated reshape / broadcast_to / expand_dims /
+                                 moveaxis, succeeding and failing) and f every attribute-carrying functor (parametrised unary ufuncs, reductions,
+                                 indexing, binary functors, norms) vs the direct view call on the unwrapped operand; binary functors called with a
+                                 maybe operand all at once
 MODEL  lean/NmVerif/Functional.lean (applyFn, applyComp/run, FC.mul, combinators, compile with the operand dispatch `View.dispatch`,
        operandsOf, IView.graph) over symbolic values
 ORACLE python: composition as function composition on operand lists following the parenthesisation tree; NumPy for the view
@@ -23,6 +27,7 @@ RULE = ('probe machine: every composition of a menu of 75 (1..5 functors: probes
         '(exact, over- and under-supplied), attribute/operand interleavings for arity 1..5; functors: 43 functors of array/functional (indexing, ufunc, reduce, accumulate, outer, matmul, pooling, norms, activations) '
         'x every curry split and attribute-before/after-operand form vs the direct view, random shapes dim 1..4; extraction: 84 view trees of depth 1..4 with the sub-view in every operand position of unary / binary / ternary nodes, '
         'number-valued sub-views (reduce_add / reduce_maximum / sum over all axes) as first and non-first operands of binary ufuncs alone, nested, under and over other nodes, with repeated and aliased leaves, number literal operands in either position, where with a number-valued condition, unary ufuncs whose op carries run-time parameters (8 parametrised activations, two non-default values each, alone / inner / outer node / first / non-first operand / two in one chain; float leaves, binary32 bit patterns compared within tolerance) '
+        'maybe-operand compositions: 48 attribute-carrying functors f (10 parametrised unary ufuncs with two non-default parameter sets each incl. attribute prefixes with the rest defaulted, 13 reductions / accumulations with axis / initial / keepdims, 11 indexing and binary functors, 5 norms) composed to the left of a run-time validated g (reshape / broadcast_to / expand_dims / moveaxis, random shapes dim 1..3, about a quarter failing) in the forms (f*g)(a), (f*g)()(a), f(g(a)), f(view_g(a)), view_f(view_g(a), attrs) vs view_f(unwrap(view_g(a)), attrs), bit-exact, and vs NumPy; '
         '(operand identity by address, static arity, apply(composition, operands) vs view, compute graphs incl. aliased leaves). non-trivial = more than one functor or more than one chunk; every functor / extraction case')
 EXHAUSTIVE = {'quick': False, 'thorough': False}
 ANCHORS = {'NmVerif.Functional.applyFn': 'functional::apply_function_t<functor_t>::operator() (functor.hpp:368-428), functor_t::operator[] / operator()',
@@ -35,9 +40,10 @@ ANCHORS = {'NmVerif.Functional.applyFn': 'functional::apply_function_t<functor_t
            'NmVerif.Functional.View.operandsOf': 'functional::get_function_operands (functor.hpp:776-812)',
            'NmVerif.Functional.Comp.arity': 'functor_composition_t::arity (functor.hpp:134-146), demanded equal to the operand count by functional::apply (functor.hpp:833-835)',
            'NmVerif.Functional.IView.graph': 'functional::get_compute_graph (compute_graph.hpp:14-275) over utility::ct_map / ct_digraph',
-           'NmVerif.Functional.generateAlias': 'index::generate_alias (index/alias.hpp:60-88)'}
+           'NmVerif.Functional.generateAlias': 'index::generate_alias (index/alias.hpp:60-88)',
+           'NmVerif.Functional.Functor.liftMaybe': 'the is_maybe_v<array_t> branch of the view functions (view::unary_ufunc view/ufunc.hpp:121-130, binary_ufunc, reduce, indexing views): has_value ? maybe{view(*array, attributes...)} : Nothing'}
 MANIFEST = dict(
-    text='Proof: Lean theorems over ARBITRARY functors (any arity, any operand/attribute types): currying in every split equals one call (curry_any_split, curry_chunks), composition = apply the right-most functor and pass the rest on (comp_apply, comp_two), parenthesisation irrelevant (comp_assoc), combinators are the stated permutations, and a compiler-correctness theorem for extraction (compile_correct/compile_frame: extracted composition applied to extracted operands = host evaluation, by induction on the view tree) on the trees where it holds — with a machine-checked counterexample outside — and compile_arity (the static arity of the extracted composition is the number of extracted operands for every well-formed tree, so functional::apply compiles), compile_one_functor_per_op (one functor per operation, none for arrays / aliases / literals), compile_preserves_params (the composition in execution order is the post-order list of the operations of the tree, each functor with the attribute list of its view: run-time parameters of the op of a ufunc are never lost or exchanged) and operand_dispatch (the type-trait chain applied to every operand never drops the composition of a view, in particular not of a number-valued view, which is a number and a view at once); the view trees of these theorems contain every operand kind the code distinguishes (host array, alias, number literal, array-valued view, number-valued view); tied to the C++ by differential runs of the real functor machinery (probe functors), of the array/functional functors against direct view calls, and of extraction / operand identity / compute graphs on view trees.',
+    text='Proof: Lean theorems over ARBITRARY functors (any arity, any operand/attribute types): currying in every split equals one call (curry_any_split, curry_chunks), composition = apply the right-most functor and pass the rest on (comp_apply, comp_two), parenthesisation irrelevant (comp_assoc), combinators are the stated permutations, and a compiler-correctness theorem for extraction (compile_correct/compile_frame: extracted composition applied to extracted operands = host evaluation, by induction on the view tree) on the trees where it holds — with a machine-checked counterexample outside — and compile_arity (the static arity of the extracted composition is the number of extracted operands for every well-formed tree, so functional::apply compiles), compile_one_functor_per_op (one functor per operation, none for arrays / aliases / literals), compile_preserves_params (the composition in execution order is the post-order list of the operations of the tree, each functor with the attribute list of its view: run-time parameters of the op of a ufunc are never lost or exchanged), maybe_view_forwards_attrs / maybe_nothing_propagates / maybe_comp_unwrap (a composition applied to nmtools_maybe operands commutes with unwrapping: same attributes, same values, wrapped; Nothing propagates) and operand_dispatch (the type-trait chain applied to every operand never drops the composition of a view, in particular not of a number-valued view, which is a number and a view at once); the view trees of these theorems contain every operand kind the code distinguishes (host array, alias, number literal, array-valued view, number-valued view); tied to the C++ by differential runs of the real functor machinery (probe functors), of the array/functional functors against direct view calls, and of extraction / operand identity / compute graphs on view trees.',
     note='Lean kernel + propext/Classical.choice/Quot.sound. Node-id uniqueness of the compute graph is not a theorem (ids are hashes mod 1033 and graph-size counters): checked per explored program. Known findings: extraction is wrong when a view operand is not the first operand (also for view::softmax of the library itself; repair proposed: fixes/C14-extract.nonfirst-view-operand.diff, follow-up on branch w4/c1314-postfix); compute-graph ids of sibling sub-views over un-aliased leaves collide (no small repair: ids are part of the view type). Repaired: dangling reference in get_function_composition (regression programs kept; ASan build in the thorough tier).',
     technique='Lean 4 proofs over an abstract stack machine (compiler correctness by mutual structural induction) + differential correspondence')
 ASSUMPTIONS = ['functors are pure functions of (attributes, operands)',
